@@ -482,10 +482,10 @@ func jlDescriptorSweep(bin string, mkdir func(string) string, rep *streamReport,
 			if tn != "" {
 				desc += "(" + tn + ")"
 			}
-			for _, other := range []string{desc, "auto"} {
-				inline := fmt.Sprintf(`{"c":"%s:%s"}`, other, desc)
+			for _, other := range []string{desc, "auto", ""} {
+				inline := fmt.Sprintf(`{"c":"%s:%s"}`, other, desc) // (other == "": an output-only descriptor ":desc")
 				run := runJl(bin, mkdir("s"), []string{"-t", inline}, stdin)
-				inF, inT := jsonline.Auto, interface{}(nil)
+				inF, inT := jsonline.Auto, interface{}(nil) // ("auto" and the empty descriptor both mean auto without raw type)
 				if other == desc {
 					inF, inT = f, typeSample[tn]
 				}
